@@ -558,6 +558,10 @@ def ins_lattice(seed, quick, resume_subsets=True):
         assigns.append({"model": "G2tilt"})
         assigns.append({"model": "G2tilt", "draw_iid_live": False, "reparameterisation": None})
         assigns.append({"min_remove": 5})
+        # base distributions / layers with buffers that are (re)estimated after training
+        assigns.append({"flow_config": {"distribution": "lars"}})
+        assigns.append({"flow_config": {"distribution": "mvn", "distribution_kwargs": {"var": 2.0}}})
+        assigns.append({"flow_config": {"batch_norm_between_layers": True}})
         # min_samples larger than the number of samples with a finite likelihood (zero-likelihood region)
         assigns.append({"model": "G2hole", "min_samples": 45, "draw_iid_live": False})
         assigns.append({"model": "G2hole", "min_samples": 45})
